@@ -605,6 +605,42 @@ func (e *Env) Exec(line string) string {
 			}
 			return fmt.Sprintf("lastnonce %d", r.EventNonce)
 		})
+	case "import_stamped":
+		// a hand-written genesis: sequence counter S and N outstanding signer-set transactions on one chain, imported into a
+		// fresh instance by the real InitGenesis; prints the sequence each one was stamped with and the counter afterwards
+		return e.pure(func() string {
+			seq, n := u(w[1]), int(u(w[2]))
+			src := NewEnv(false)
+			src.Init()
+			gs := keeper.ExportGenesis(src.rootCtx, src.k)
+			if len(gs.ExternalStates) == 0 {
+				return "no-chain"
+			}
+			gs.ExternalStates[0].Sequence = seq
+			for i := 1; i <= n; i++ {
+				a, err := types.PackOutgoingTx(&types.SignerSetTx{Nonce: uint64(i), Height: uint64(i)})
+				if err != nil {
+					return "err"
+				}
+				gs.ExternalStates[0].OutgoingTxs = append(gs.ExternalStates[0].OutgoingTxs, a)
+			}
+			dst := NewEnv(false)
+			keeper.InitGenesis(dst.rootCtx, dst.k, gs)
+			chain := types.ChainID(gs.ExternalStates[0].ChainId)
+			byNonce := map[uint64]uint64{}
+			dst.k.IterateOutgoingTxsByType(dst.rootCtx, chain, types.SignerSetTxPrefixByte, func(_ []byte, otx types.OutgoingTx) bool {
+				if ss, ok := otx.(*types.SignerSetTx); ok {
+					byNonce[ss.Nonce] = ss.Sequence
+				}
+				return false
+			})
+			var l []string
+			for i := 1; i <= n; i++ {
+				l = append(l, strconv.FormatUint(byNonce[uint64(i)], 10))
+			}
+			out := keeper.ExportGenesis(dst.rootCtx, dst.k)
+			return fmt.Sprintf("stamps %s counter %d", strings.Join(l, ","), out.ExternalStates[0].Sequence)
+		})
 	case "export_import":
 		e.Init()
 		e.Flush()
